@@ -201,6 +201,8 @@ func TestVerifC05ClientSession(t *testing.T) {
 	n := k.N(1500, 30000)
 	buf := make([]byte, protocol.MaxUDPSize)
 	wrongEmissions := 0
+	partials := 0
+	idPairs, idCollisions := 0, 0
 	var firstWrong map[string]any
 	for i := 0; i < n; i++ {
 		caseID := fmt.Sprintf("sess-%d", i)
@@ -221,6 +223,8 @@ func TestVerifC05ClientSession(t *testing.T) {
 			complete bool // Send returned nil and at least one datagram left for it
 			outFrom  int
 			outTo    int
+			pid      uint16 // packet ID of its fragments
+			fragd    bool   // it left as fragments (so pid is meaningful)
 		}
 		var msgs []sent
 		var script []map[string]any
@@ -256,10 +260,35 @@ func TestVerifC05ClientSession(t *testing.T) {
 			}
 			// restore the limit for the next message (the path MTU recovered)
 			io.limit = hdr + budget
-			msgs = append(msgs, sent{payload: append([]byte(nil), payload...), complete: err == nil && len(io.out) > from, outFrom: from, outTo: len(io.out)})
+			if err != nil && len(io.out) > from {
+				partials++
+			}
+			var pid uint16
+			fragd := false
+			if len(io.out) > from {
+				if pm, perr := protocol.ParseUDPMessage(append([]byte(nil), io.out[from]...)); perr == nil && pm.FragCount > 1 {
+					pid, fragd = pm.PacketID, true
+				}
+			}
+			msgs = append(msgs, sent{payload: append([]byte(nil), payload...), complete: err == nil && len(io.out) > from, outFrom: from, outTo: len(io.out), pid: pid, fragd: fragd})
 			script = append(script, map[string]any{"msg": j, "len": plen, "frags": fc, "fault": fault, "err": fmt.Sprint(err), "datagrams": len(io.out) - from})
 		}
+		// packet-ID census of the session: two fragmented messages with the same ID are the (only) way the
+		// far side can legitimately mix or swallow them; with fresh random IDs that is a 1/65535 event per pair
+		sessCollisions := 0
+		for a := range msgs {
+			for b := a + 1; b < len(msgs); b++ {
+				if msgs[a].fragd && msgs[b].fragd {
+					idPairs++
+					if msgs[a].pid == msgs[b].pid {
+						sessCollisions++
+					}
+				}
+			}
+		}
+		idCollisions += sessCollisions
 		// far side: one reassembler for the session, datagrams arrive in the order they left
+		wrongBefore := wrongEmissions
 		d := &frag.Defragger{}
 		delivered := make([]int, len(msgs))
 		for di, raw := range io.out {
@@ -281,6 +310,10 @@ func TestVerifC05ClientSession(t *testing.T) {
 			}
 			if match < 0 {
 				wrongEmissions++
+				if sessCollisions == 0 {
+					k.Violation("send:far-side-emitted-unsent-payload", map[string]any{"case_id": caseID, "script": script, "emitted_len": len(out.Data), "packet_id": out.PacketID},
+						"the far side's reassembler emitted a %d-byte payload that was never handed to Send, although all fragmented messages of the session carry distinct packet IDs", len(out.Data))
+				}
 				if firstWrong == nil {
 					firstWrong = map[string]any{"case_id": caseID, "script": script, "emitted_len": len(out.Data), "packet_id": out.PacketID, "at_datagram": di}
 				}
@@ -294,7 +327,7 @@ func TestVerifC05ClientSession(t *testing.T) {
 				// a complete in-order fragment set must come out exactly once — unless a wrong emission
 				// (counted above) swallowed it
 				k.Count("ev_session_complete_not_delivered", 1)
-				if wrongEmissions == 0 {
+				if wrongEmissions == wrongBefore && sessCollisions == 0 {
 					k.Violation("send:complete-message-not-delivered", map[string]any{"case_id": caseID, "script": script, "msg": mi},
 						"message %d left completely (%d datagrams, in order) but was delivered %d times", mi, s.outTo-s.outFrom, delivered[mi])
 				}
@@ -305,14 +338,32 @@ func TestVerifC05ClientSession(t *testing.T) {
 			k.Sample(map[string]any{"session": script})
 		}
 	}
-	// A wrong emission needs two messages of one session to share a packet ID. With fresh random IDs
-	// that happens by chance with probability ~1/65535 per partial message, so a single occurrence in
-	// a run cannot be told from bad luck (inconclusive); two or more cannot be luck (< 1e-4).
+	// Sessions whose fragmented messages all carry distinct packet IDs are judged exactly (above). Two
+	// messages of one session sharing a packet ID is the sender's business: with fresh random IDs it is a
+	// chance event of probability 1/65535 per pair, so the number of such pairs in a run is Poisson with
+	// lambda = pairs/65535. The verdict threshold is the smallest k whose tail P(X >= k) is below 1e-9 for
+	// this run's lambda (it scales with the tier); a sender that really reuses IDs produces far more.
+	// Fewer than k collisions cannot be told from bad luck and are only counted.
+	_ = partials
+	lambda := float64(idPairs) / 65535.0
+	kmin := 1
+	for ; kmin < 100000; kmin++ {
+		term := 1.0 // lambda^k / k!  (upper bound of e^-lambda * lambda^k / k!)
+		for j := 1; j <= kmin; j++ {
+			term *= lambda / float64(j)
+		}
+		if lambda < float64(kmin)/2 && 2*term < 1e-9 {
+			break
+		}
+	}
+	k.Count("ev_session_partial_messages", int64(partials))
 	k.Count("ev_session_wrong_emissions", int64(wrongEmissions))
-	if wrongEmissions >= 2 {
-		k.Violation("send:far-side-emitted-unsent-payload", firstWrong,
-			"%d times the far side's reassembler emitted a payload that was never handed to Send (first: %v) — messages of one session share packet IDs", wrongEmissions, firstWrong)
-	} else if wrongEmissions == 1 {
-		k.Inconclusive(fmt.Sprintf("one wrong emission (possible 1/65535 packet-ID collision): %v", firstWrong))
+	k.Count("ev_session_packet_id_pairs", int64(idPairs))
+	k.Count("session_packet_id_collisions", int64(idCollisions))
+	k.Count("packet_id_collision_violation_threshold", int64(kmin))
+	if idCollisions >= kmin {
+		k.Violation("send:packet-ids-reused-within-session", firstWrong,
+			"%d pairs of fragmented messages of one session share a packet ID (chance bound for %d pairs of fresh random IDs: fewer than %d); %d payloads that were never handed to Send were emitted by the far side (first: %v)",
+			idCollisions, idPairs, kmin, wrongEmissions, firstWrong)
 	}
 }
